@@ -302,7 +302,23 @@ def _pheno_setup(case):
             kw["var_err"] = vx_arg
     else:
         kw.update(var_env=ve_arg, var_rep=vr_arg, var_err=vx_arg)
-    pt = G_E_Phenotyping(**kw)
+    if case.get("reconf"):
+        # history: built with another configuration, then every setting replaced through the property setters
+        pt = G_E_Phenotyping(gpmod=pop["model"], nenv=nenv + 1, nrep=2, var_env=7.0, var_rep=7.0, var_err=7.0,
+                             rng=numpy.random.RandomState(0))
+        pt.nenv = nenv
+        pt.nrep = nrep_arg
+        pt.var_env = ve_arg
+        pt.var_rep = vr_arg
+        pt.var_err = vx_arg
+        pt.rng = rng
+    else:
+        pt = G_E_Phenotyping(**kw)
+    if case.get("copy") == "copy":
+        pt = pt.copy()
+    elif case.get("copy") == "deepcopy":
+        pt = pt.deepcopy()
+        pop["model"] = pt.gpmod
     return pop, pt, rng, nenv, nrep_l, ve, vr, vx
 
 
@@ -325,9 +341,12 @@ def run_pheno(case):
     gv = oracle_gv(pop)
     snap = _snapshot_pg(pop["pg"])
     miscout = {} if case.get("miscout") else None
-    with warnings.catch_warnings():
-        warnings.simplefilter("ignore")
-        df = pt.phenotype(pop["pg"], miscout=miscout)
+    for call in range(case.get("calls", 1)):        # a second trial with the same protocol object must hold as well
+        if hasattr(rng, "log"):
+            del rng.log[:]
+        with warnings.catch_warnings():
+            warnings.simplefilter("ignore")
+            df = pt.phenotype(pop["pg"], miscout=miscout)
     if not _same_pg(pop["pg"], snap):
         return True, "phenotype() modified the genotype matrix it was given", "pheno-mutates-input"
     msg, R = analyse_trial(df, pop, nenv, nrep_l)
@@ -444,7 +463,7 @@ _TAXA_MODES = ["none", "padded", "unpadded", "unpadded_perm", "mixed"]
 
 def _base_case(rnd, tier):
     n = rnd.choice([1, 1, 2, 2, 3, 3, 4, 5, 9, 10, 11, 12])
-    if tier == "thorough" and rnd.random() < 0.05:
+    if rnd.random() < (0.05 if tier == "thorough" else 0.02):
         n = rnd.choice([99, 100, 101])
     nenv = rnd.choice([1, 1, 2, 2, 3, 3, 4])
     t = rnd.choice([1, 1, 2, 2, 3])
@@ -452,13 +471,14 @@ def _base_case(rnd, tier):
                 gseed=rnd.randrange(10 ** 6), taxa_mode=rnd.choice(_TAXA_MODES), grp=rnd.random() < 0.6,
                 trait_named=rnd.random() < 0.5, clone=rnd.random() < 0.2, big_intercept=rnd.random() < 0.15,
                 nenv=nenv, nrep=rnd.choice(_NREP_MENU[nenv]), miscout=rnd.random() < 0.3,
-                rseed=rnd.randrange(10 ** 6))
+                rseed=rnd.randrange(10 ** 6), reconf=rnd.random() < 0.25, calls=rnd.choice([1, 1, 1, 2]),
+                copy=rnd.choice([None, None, None, "copy", "deepcopy"]))
 
 
 def gen_pheno_cases(rnd, tier):
-    nz = 150 if tier == "quick" else 2500
-    nr = 250 if tier == "quick" else 4000
-    nd = 250 if tier == "quick" else 4000
+    nz = 400 if tier == "quick" else 7000
+    nr = 650 if tier == "quick" else 12000
+    nd = 650 if tier == "quick" else 12000
     # family "zero": every way of saying "no noise", every generator kind
     for k in range(nz):
         c = _base_case(rnd, tier)
@@ -629,7 +649,7 @@ _H_MENU = [1.0, 1, 0.5, 0.25, 0.3, 0.1, 0.9, 0.99, 0.999999, 1e-3, 1e-6, 1e-9, 2
 
 
 def gen_herit_cases(rnd, tier):
-    N = 500 if tier == "quick" else 8000
+    N = 1300 if tier == "quick" else 25000
     for k in range(N):
         c = _base_case(rnd, tier)
         if c["n"] == 1:
@@ -964,7 +984,7 @@ def gen_bv_cases(rnd, tier):
                      miscout=False))
     for c in edge:
         yield c
-    N = 450 if tier == "quick" else 7000
+    N = 900 if tier == "quick" else 20000
     for k in range(N):
         ntr = rnd.choice([1, 2, 3, 4])
         sel = rnd.choice(["all", "first_str", "last_str", "reversed", "tuple_subset"])
@@ -977,7 +997,7 @@ def gen_bv_cases(rnd, tier):
                    gt_grp=rnd.random() < 0.7, trait_sel=sel, use_grp_col=rnd.random() < 0.5,
                    gtobj=rnd.choice(["phased", "phased", "unphased", "none"]),
                    index_mode=rnd.choice(["range", "perm", "str"]), miscout=rnd.random() < 0.2)
-    M = 250 if tier == "quick" else 4000
+    M = 500 if tier == "quick" else 10000
     for k in range(M):
         c = _base_case(rnd, tier)
         fam = rnd.choice(["zero", "noise"])
@@ -1078,7 +1098,7 @@ def run_true(case):
 
 
 def gen_true_cases(rnd, tier):
-    N = 500 if tier == "quick" else 8000
+    N = 1600 if tier == "quick" else 30000
     for k in range(N):
         c = _base_case(rnd, tier)
         c.update(kind="true", pass_table=rnd.random() < 0.5)
